@@ -91,6 +91,9 @@ func c20DirGen(c *engine.C) engine.Case {
 	if c.Bool("a-declares-a-free-function") {
 		a.Free = []string{"Free"}
 	}
+	if c.Bool("a-declares-a-free-function-named-with-a-non-ascii-capital") {
+		a.Free = append(a.Free, "Übersicht")
+	}
 	switch engine.Pick(c, "b-struct", "like-named-struct", "other-struct", "no-struct", "like-named-struct-without-methods") {
 	case "like-named-struct":
 		if !sameGoPackage {
